@@ -11,14 +11,19 @@
 3. Monitor: the property itself (a plain deque / stable priority queue in Python) is evaluated on the Go
    observations; deviations are minimised (delta debugging on the Go harness), classified by a stable signature and
    matched against known_findings/C20.json.
+Three families of cases: segmented queues (L/C/M), per-key queues of lock.go (R/Q/W/K; incl. the directed
+"wait-states" generator that drives every maintenance operation of LockManagerWaitQueue from every representation
+state), long-wait tables of db.go (G: LongWaitLockQueue + LongWaitLockFreeQueue through the real AddTimeOut /
+RemoveLongTimeOut / AddExpried / RemoveLongExpried / restructuringLong*Queue, model coq/Queue/LongWait.v).
 """
 import difflib, importlib.util, json, os, re, subprocess, sys, time
+from concurrent.futures import ThreadPoolExecutor
 from tools import vlib
 
 MANIFEST = {
     "property": "C20",
     "theorems": "coq/Properties/C20.v",
-    "model": ["coq/Queue/SegQueue.v", "coq/Queue/KeyQueues.v"],
+    "model": ["coq/Queue/SegQueue.v", "coq/Queue/KeyQueues.v", "coq/Queue/LongWait.v"],
     "harness": "harness/queue",
     "ocaml": "ocaml/queue",
 }
@@ -26,7 +31,7 @@ MANIFEST = {
 VERIF = vlib.VERIF
 INJ = "harness/queue/inj/server"
 INJ_FILES = ["zz_verif_queue.go", "zz_verif_queue_lockqueue.go", "zz_verif_queue_lockcommandqueue.go",
-             "zz_verif_queue_lockmanagerqueue.go", "zz_verif_keyqueue.go"]
+             "zz_verif_queue_lockmanagerqueue.go", "zz_verif_keyqueue.go", "zz_verif_longwait.go"]
 
 # ------------------------------------------------------------------ source identity of the three queue types
 ELEM = {"LockManagerQueue": "LockManager", "LockQueue": "Lock", "LockCommandQueue": "protocol.LockCommand"}
@@ -74,6 +79,22 @@ def check_identity(ctx, repo):
         fs[name] = "\n".join(l.rstrip() for l in b.splitlines() if l.strip())
     if fs["restructuringLongTimeOutQueue"] != fs["restructuringLongExpriedQueue"]:
         return False, "db.go: restructuringLongTimeOutQueue and restructuringLongExpriedQueue differ"
+    # RemoveLongTimeOut / RemoveLongExpried: same Remove + trigger + restructure (one model: LongWait.lw_trigger)
+    rs = {}
+    for name in ("RemoveLongTimeOut", "RemoveLongExpried"):
+        m = re.search(r"^func \(self \*LockDB\) %s\(.*?^}\n" % name, db, flags=re.S | re.M)
+        if not m:
+            return False, "db.go: %s not found" % name
+        b = m.group(0)
+        b = re.sub(r"\(lock \*Lock(, expriedTime int64)?\)", "(lock *Lock)", b)
+        for a, r in ((name, "F"), ("longTimeoutLocks", "LONG"), ("longExpriedLocks", "LONG"), ("lock.timeoutTime", "TIME"),
+                     ("expriedTime", "TIME"), ("restructuringLongTimeOutQueue", "R"), ("restructuringLongExpriedQueue", "R"),
+                     ("long timeout", "long x"), ("long expried", "long x")):
+            b = b.replace(a, r)
+        rs[name] = "\n".join(l.rstrip() for l in b.splitlines() if l.strip())
+    if rs["RemoveLongTimeOut"] != rs["RemoveLongExpried"]:
+        d = list(difflib.unified_diff(rs["RemoveLongTimeOut"].splitlines(), rs["RemoveLongExpried"].splitlines(), lineterm="", n=0))
+        return False, "db.go: RemoveLongTimeOut and RemoveLongExpried differ after normalisation: " + " | ".join(d[:8])
     return True, ""
 
 
@@ -322,6 +343,66 @@ def run_lines(exe, lines, timeout=600):
     return out, p.returncode, p.stderr.decode(errors="replace")[-2000:]
 
 
+def run_lines_par(exe, lines, nproc=6, timeout=3000):
+    """run_lines over `nproc` concurrent processes (cases are independent; chunks balanced by line length)"""
+    if len(lines) < 2 * nproc:
+        return run_lines(exe, lines, timeout)
+    order = sorted(range(len(lines)), key=lambda i: -len(lines[i]))
+    chunks = [[] for _ in range(nproc)]
+    load = [0] * nproc
+    for i in order:
+        k = load.index(min(load))
+        chunks[k].append(lines[i])
+        load[k] += len(lines[i])
+    out, rc, err = {}, 0, ""
+    with ThreadPoolExecutor(max_workers=nproc) as ex:
+        for o, r, e in ex.map(lambda ch: run_lines(exe, ch, timeout), chunks):
+            out.update(o)
+            rc = rc or r
+            err = err or e
+    return out, rc, err
+
+
+def minimise_key(c, keygen, goexe, budget=250):
+    """delta debugging of a key-queue case on the Go harness; keeps the violation kind (op kind or panic)"""
+    def kind_of(v):
+        return None if v is None else ("panic" if v[2] == "panic" else v[1])
+    v0 = keygen.monitor(c, c["_goobs"])
+    want = kind_of(v0)
+    ops = list(c["ops"][:v0[0] + 1])
+    hdr = "m %s %d " % (c["T"], c["param"])
+
+    def fails(cand):
+        out, _, _ = run_lines(goexe, [hdr + " ".join(cand)], timeout=60)
+        return kind_of(keygen.monitor(dict(c, ops=cand), out.get("m", []))) == want
+    calls, n = 0, 2
+    # pre-pass: drop a whole op kind at once (marks, observers): gives the same kind set for the same defect
+    for kd in "TAUgxzmhinder":
+        cand = [o for o in ops[:-1] if o[0] != kd] + ops[-1:]
+        if len(cand) < len(ops):
+            calls += 1
+            if fails(cand):
+                ops = cand
+    while len(ops) >= 2 and calls < budget:
+        chunk = max(1, len(ops) // n)
+        reduced = False
+        for s0 in range(0, len(ops), chunk):
+            cand = ops[:s0] + ops[s0 + chunk:]
+            calls += 1
+            if cand and fails(cand):
+                ops, n, reduced = cand, max(n - 1, 2), True
+                break
+            if calls >= budget:
+                break
+        if not reduced:
+            if chunk == 1:
+                break
+            n = min(n * 2, len(ops))
+    res = dict(c, ops=ops, nops=len(ops), line="replay %s %d %s" % (c["T"], c["param"], " ".join(ops)))
+    res.pop("_goobs", None)
+    return res
+
+
 def classify(c, viol):
     """stable signature of a (minimised) failing case: root cause (the maintenance method that is needed to make the
     minimised sequence fail) + failure kind.  Anything not involving Shrink / Restructuring / restructuringLong*Queue
@@ -404,11 +485,18 @@ def run(ctx):
     goexe = ctx.go_build("queueharness", os.path.join(VERIF, "harness/queue"), overlay=overlay)
     mlexe = ctx.ocaml_model("queue")
 
+    def load(name):
+        spec = importlib.util.spec_from_file_location("c20_" + name, os.path.join(VERIF, "harness/queue/%s.py" % name))
+        mod = importlib.util.module_from_spec(spec)
+        spec.loader.exec_module(mod)
+        return mod
+    keygen, longgen = load("keygen"), load("longgen")
+
     thorough = ctx.tier == "thorough"
     ncases = 60000 if thorough else 3000
     maxlen = 4000 if thorough else 2500
+    # ---------------- generate the three families (one rng stream, fixed order)
     cases = []
-    # corpus first
     cdir = os.path.join(VERIF, "corpus", "C20")
     ncorpus = 0
     for f in sorted(os.listdir(cdir)) if os.path.isdir(cdir) else []:
@@ -420,13 +508,47 @@ def run(ctx):
             ncorpus += 1
     for i in range(ncases):
         cases.append(gen_case(ctx.rng, "c%d" % i, maxlen))
+    nkey = 30000 if thorough else 1500
+    kcases = [keygen.gen_case(ctx.rng, "k%d" % i, 4000 if thorough else 1500) for i in range(nkey)]
+    for f in sorted(os.listdir(cdir)) if os.path.isdir(cdir) else []:
+        if f.endswith(".keyline"):
+            ln = open(os.path.join(cdir, f)).read().split()
+            kcases.insert(0, dict(id="corpus-" + f, T=ln[1], param=int(ln[2]), ops=ln[3:], profile="corpus", nops=len(ln) - 3,
+                                  line="corpus-%s %s" % (f, " ".join(ln[1:]))))
+    # directed: every maintenance operation of LockManagerWaitQueue from every representation state
+    nwait = 6000 if thorough else 300
+    kcases += [keygen.gen_wait_state_case(ctx.rng, "w%d" % i) for i in range(nwait)]
+    # long-wait tables
+    nlong = 4000 if thorough else 200
+    gcases = [longgen.f4_case("f4-drift", 1)]
+    gcases += [longgen.gen_case(ctx.rng, "g%d" % i, 3000 if thorough else 1500) for i in range(nlong)]
+    gonly = [dict(longgen.f4_case("f4-panic", 70), _goonly=True)]        # 230k ops: Go only in the quick tier (the list-based model needs ~2 min)
+    if thorough:
+        gcases += gonly
+        gonly = []
 
+    # ---------------- run both sides, all families concurrently
     lines = [case_line(c) for c in cases]
-    goout, grc, gerr = run_lines(goexe, lines, timeout=3000)
-    mlout, mrc, merr = run_lines(mlexe, lines, timeout=3000)
-    if grc != 0 or mrc != 0:
-        raise vlib.BuildError("harness/model run failed: go rc=%s %s | ml rc=%s %s" % (grc, gerr[-500:], mrc, merr[-500:]))
+    klines = [c["line"] for c in kcases]
+    glines = [c["line"] for c in gcases]
+    t1 = time.time()
+    with ThreadPoolExecutor(max_workers=7) as ex:
+        futs = {
+            "go": ex.submit(run_lines_par, goexe, lines, 3),
+            "ml": ex.submit(run_lines_par, mlexe, lines, 4),
+            "kgo": ex.submit(run_lines_par, goexe, klines, 2),
+            "kml": ex.submit(run_lines_par, mlexe, klines, 3),
+            "ggo": ex.submit(run_lines_par, goexe, glines + [c["line"] for c in gonly], 2),
+            "gml": ex.submit(run_lines_par, mlexe, glines, 6),
+        }
+        res = {k: f.result() for k, f in futs.items()}
+    wall_runs = round(time.time() - t1, 1)
+    for k, (_, rc, err) in res.items():
+        if rc != 0:
+            raise vlib.BuildError("harness/model run %s failed: rc=%s %s" % (k, rc, err[-500:]))
+    goout, mlout, kgo, kml, ggo, gml = (res[k][0] for k in ("go", "ml", "kgo", "kml", "ggo", "gml"))
 
+    # ================= segmented queues
     stats = dict(cases=len(cases), corpus=ncorpus, ops=0, by_profile={}, by_type={}, opkinds={}, panics=0,
                  mismatches=0, monitor_violations=0, lens=[], maxlive=0)
     mism = []
@@ -492,75 +614,155 @@ def run(ctx):
                        "run": "echo '<case>' | build/queueharness"}, found_input=True)
     stats["violation_signatures"] = {s: i["count"] for s, i in sigs.items()}
 
-    # ---------------- per-key queues of lock.go (model coq/Queue/KeyQueues.v, generator/monitor harness/queue/keygen.py)
-    spec = importlib.util.spec_from_file_location("c20_keygen", os.path.join(VERIF, "harness/queue/keygen.py"))
-    keygen = importlib.util.module_from_spec(spec)
-    spec.loader.exec_module(keygen)
-    nkey = 30000 if thorough else 1500
-    kcases = [keygen.gen_case(ctx.rng, "k%d" % i, 4000 if thorough else 1500) for i in range(nkey)]
-    kdir = os.path.join(VERIF, "corpus", "C20")
-    for f in sorted(os.listdir(kdir)) if os.path.isdir(kdir) else []:
-        if f.endswith(".keyline"):
-            ln = open(os.path.join(kdir, f)).read().split()
-            kcases.insert(0, dict(id="corpus-" + f, T=ln[1], param=int(ln[2]), ops=ln[3:], profile="corpus", nops=len(ln) - 3,
-                                  line="corpus-%s %s" % (f, " ".join(ln[1:]))))
-    klines = [c["line"] for c in kcases]
-    kgo, grc, gerr = run_lines(goexe, klines, timeout=3000)
-    kml, mrc, merr = run_lines(mlexe, klines, timeout=3000)
-    if grc != 0 or mrc != 0:
-        raise vlib.BuildError("key-queue harness/model run failed: go rc=%s %s | ml rc=%s %s" % (grc, gerr[-500:], mrc, merr[-500:]))
+    # ================= per-key queues of lock.go (model coq/Queue/KeyQueues.v, generator/monitor harness/queue/keygen.py)
     kstats = dict(cases=len(kcases), ops=sum(c["nops"] for c in kcases), by_type={}, by_profile={}, mismatches=0,
-                  monitor_violations=0, panics=0)
-    ksigs = {}
+                  monitor_violations=0, panics=0, wait_state_before={})
+    kviol = {}
+    ncorr = 0
     for c in kcases:
         kstats["by_type"][c["T"]] = kstats["by_type"].get(c["T"], 0) + 1
         kstats["by_profile"][c["profile"]] = kstats["by_profile"].get(c["profile"], 0) + 1
-        g, m = kgo.get(c["id"]), kml.get(c["id"])
-        if g is None or m is None or g != m:
+        g, m = kgo.get(c["id"]) or [], kml.get(c["id"]) or []
+        v = keygen.monitor(c, g)
+        if c["T"] == "W":
+            # representation state (from the Go dump) in which each maintenance operation was executed
+            last = None
+            for op, o in zip(c["ops"], g):
+                if op == "d":
+                    last = keygen.wait_state_of_dump(o)
+                elif op in ("y", "e") and last is not None:
+                    key = "%s:%s" % ({"y": "RePush", "e": "Reset"}[op], last)
+                    kstats["wait_state_before"][key] = kstats["wait_state_before"].get(key, 0) + 1
+                    last = None
+                elif op[0] != "n":
+                    last = None
+        if g != m:
             kstats["mismatches"] += 1
-            g, m = g or [], m or []
-            k = 0
-            while k < min(len(g), len(m)) and g[k] == m[k]:
-                k += 1
-            v = keygen.monitor(c, g)
-            if kstats["mismatches"] <= 5:
-                ctx.violation("corr:key:%s:op=%s" % (c["T"], c["ops"][k][0] if k < len(c["ops"]) else "?"),
-                              "key-queue model and Go disagree at op #%d: go=%s model=%s" % (k, g[k:k + 1], m[k:k + 1]),
-                              {"case": " ".join(c["line"].split()[:4 + k]), "go": g[max(0, k - 3):k + 1],
-                               "model": m[max(0, k - 3):k + 1], "monitor": v}, found_input=v is not None)
-            continue
+            if v is None:
+                k = 0
+                while k < min(len(g), len(m)) and g[k] == m[k]:
+                    k += 1
+                ncorr += 1
+                if ncorr <= 5:
+                    ctx.violation("corr:key:%s:op=%s" % (c["T"], c["ops"][k][0] if k < len(c["ops"]) else "?"),
+                                  "key-queue model and Go disagree at op #%d: go=%s model=%s" % (k, g[k:k + 1], m[k:k + 1]),
+                                  {"case": " ".join(c["line"].split()[:4 + k]), "go": g[max(0, k - 3):k + 1],
+                                   "model": m[max(0, k - 3):k + 1], "monitor": None}, found_input=False)
+                continue
         if g and g[-1] == "PANIC":
             kstats["panics"] += 1
-        v = keygen.monitor(c, g)
         if v:
             kstats["monitor_violations"] += 1
-            sig = keygen.classify(c, v)
-            if sig not in ksigs or c["nops"] < ksigs[sig][0]["nops"]:
-                ksigs[sig] = (c, v)
+            c["_goobs"] = g
+            sig0 = keygen.classify(c, v)
+            if sig0 not in kviol or v[0] < kviol[sig0][1][0]:
+                kviol[sig0] = (c, v)
+    ksigs = {}
+    for sig0, (c, v) in sorted(kviol.items())[:12]:
+        small = minimise_key(c, keygen, goexe)
+        out, _, _ = run_lines(goexe, ["m " + " ".join(small["line"].split()[1:])], timeout=60)
+        v2 = keygen.monitor(small, out.get("m", []))
+        sig = keygen.classify(small, v2) if v2 else sig0
+        if sig not in ksigs or small["nops"] < ksigs[sig][0]["nops"]:
+            ksigs[sig] = (small, v2 or v)
     for sig, (c, v) in sorted(ksigs.items()):
         ctx.violation(sig, "key queue deviates from a FIFO / stable priority queue: %s" % (v[2],),
-                      {"case": " ".join(c["line"].split()[:4 + v[0]]), "run": "echo '<case>' | build/queueharness"}, found_input=True)
+                      {"case": c["line"], "run": "echo '<case>' | build/queueharness"}, found_input=True)
+    # the directed generator must have driven RePushPriorityRingQueue / Reset from every representation state
+    need = ["RePush:" + s0 for s0 in ("empty", "fast", "fast-popped", "mixed", "mixed-popped", "ring", "prio")] + \
+           ["Reset:" + s0 for s0 in ("fast", "mixed", "ring", "prio")]
+    missing = [k for k in need if kstats["wait_state_before"].get(k, 0) == 0]
+    ctx.obligation("wait queue: RePushPriorityRingQueue / Reset executed from every representation state "
+                   "(inline only, inline+ring, ring only, priority ring)", not missing, "not reached: %s" % missing if missing else "")
+
+    # ================= long-wait tables of db.go (model coq/Queue/LongWait.v, generator/monitor harness/queue/longgen.py)
+    gstats = dict(cases=len(gcases) + len(gonly), ops=sum(c["nops"] for c in gcases + gonly), by_profile={}, opkinds={},
+                  mismatches=0, monitor_violations=0, panics=0, restructures_by_policy=0, go_only_cases=[c["id"] for c in gonly])
+    gviol = {}
+    ncorr = 0
+
+    def run_go_line(line):
+        out, _, _ = run_lines(goexe, [line], timeout=120)
+        return out.get(line.split()[0], [])
+    for c in gcases + gonly:
+        gstats["by_profile"][c["profile"]] = gstats["by_profile"].get(c["profile"], 0) + 1
+        for o in c["ops"]:
+            gstats["opkinds"][o[0]] = gstats["opkinds"].get(o[0], 0) + 1
+        g = ggo.get(c["id"]) or []
+        gstats["restructures_by_policy"] += sum(1 for o in g if o == "ok+S")
+        v = longgen.monitor(c, g)
+        if not c.get("_goonly"):
+            m = gml.get(c["id"]) or []
+            if g != m:
+                gstats["mismatches"] += 1
+                if v is None:
+                    k = 0
+                    while k < min(len(g), len(m)) and g[k] == m[k]:
+                        k += 1
+                    ncorr += 1
+                    if ncorr <= 5:
+                        ctx.violation("corr:lw:op=%s" % (c["ops"][k][0] if k < len(c["ops"]) else "?"),
+                                      "long-wait model and Go disagree at op #%d (%s): go=%s model=%s" % (
+                                          k, c["ops"][k] if k < len(c["ops"]) else "?", g[k:k + 1], m[k:k + 1]),
+                                      {"case": " ".join(c["line"].split()[:8 + k]), "go": g[max(0, k - 3):k + 1],
+                                       "model": m[max(0, k - 3):k + 1]}, found_input=False)
+                    continue
+        if g and g[-1] == "PANIC":
+            gstats["panics"] += 1
+        if v:
+            gstats["monitor_violations"] += 1
+            c["_goobs"] = g
+            sig0 = longgen.classify(c, v)
+            if sig0 not in gviol or (not c.get("nominimise") and v[0] < gviol[sig0][1][0]):
+                gviol[sig0] = (c, v)
+    gsigs = {}
+    for sig0, (c, v) in sorted(gviol.items()):
+        if c.get("nominimise"):
+            small, v2 = c, v
+            desc = {"generator": "harness/queue/longgen.py f4_case(%r, %d)" % (c["id"], 70 if c["id"] == "f4-panic" else 1),
+                    "ops": c["nops"], "panic_at_op": v[0], "last_ops": c["ops"][max(0, v[0] - 3):v[0] + 1]}
+        else:
+            small = longgen.minimise(c, run_go_line)
+            v2 = longgen.monitor(small, run_go_line("m " + " ".join(small["line"].split()[1:])))
+            desc = {"case": small["line"]}
+        sig = longgen.classify(small, v2) if v2 else sig0
+        if sig not in gsigs or small["nops"] < gsigs[sig][0]["nops"]:
+            gsigs[sig] = (small, v2 or v, desc)
+    for sig, (c, v, desc) in sorted(gsigs.items()):
+        ctx.violation(sig, "long-wait table deviates from a plain sequence with deletions: %s (op #%d %s)" % (v[2], v[0], c["ops"][v[0]]),
+                      dict(desc, run="echo '<case>' | build/queueharness"), found_input=True)
+    gstats["violation_signatures"] = sorted(gsigs)
 
     if thorough and ok:
         cok, cout = ctx.coqchk(["Slock.Properties.C20"])
         ctx.obligation("coqchk -o Slock.Properties.C20", cok, "" if cok else cout[-800:])
         ctx.notes.append("coqchk: " + " ".join(cout.split())[-600:])
 
-    distinct = len(set(tuple(goout.get(c["id"], [])) for c in cases))
+    ctx.trusted.append("model coq/Queue/LongWait.v is hand-written; tied to db.go by the correspondence run (every return value, Len, "
+                       "lockCount, freeCount, longWaitIndex, full field dumps) through the real AddTimeOut/RemoveLongTimeOut/AddExpried/"
+                       "RemoveLongExpried/restructuringLong*Queue/FreeLongWaitLockQueue; the consumer idiom (Len() times Pop()) is "
+                       "replicated in the harness (zz_verif_longwait.go op C), not called in place")
+    ctx.trusted.append("long-wait theorems: one life of a queue (any constructor parameters, any operation mix); LockQueue.Reset inside "
+                       "FreeLongWaitLockQueue, recycled lives and the table (map) level are correspondence-only")
+    distinct = len(set(tuple(goout.get(c["id"], [])) for c in cases)) + len(set(tuple(ggo.get(c["id"], [])) for c in gcases))
     cov = {
-        "evaluations": stats["ops"] + kstats["ops"],
+        "evaluations": stats["ops"] + kstats["ops"] + gstats["ops"],
         "distinct_nontrivial": distinct,
         "rule": "distinct observation traces (every op returns a compared observation; final n,i,d dump on every case)",
-        "samples": [case_line(c)[:300] for c in cases[ncorpus:ncorpus + 3]],
+        "samples": [case_line(c)[:300] for c in cases[ncorpus:ncorpus + 2]] + [gcases[1]["line"][:300]] + [kcases[-1]["line"][:300]],
         "input_distribution": {k: stats[k] for k in ("cases", "corpus", "ops", "by_profile", "by_type", "opkinds", "panics")},
         "mismatches_model_vs_go": stats["mismatches"],
         "monitor_violations": stats["monitor_violations"],
         "violation_signatures": stats["violation_signatures"],
         "key_queues": kstats,
+        "long_wait": gstats,
         "shrink_callers_outside_queue_go": shrink_callers,
+        "wall_runs_s": wall_runs,
         "wall_correspondence_s": round(time.time() - t0, 1),
     }
     return ctx.finish(cov, assumptions=[
         "element identity: pointers are compared through an injective tag map kept by the harness",
         "Go append growth of queues/nodeQueueSizes is not observable by the queue's own methods (cap approximated by len)",
+        "long-wait: a lock is added to a bucket only while it is not queued and removed only while its longWaitIndex > 0 "
+        "(the callers' contract in db.go); int32 counters do not overflow",
     ])
